@@ -233,6 +233,10 @@ func main() {
 			os.Stdout.WriteString(runDowns(atoi(a[1])))
 			return
 		}
+		if len(a) == 3 && a[0] == "finishes" {
+			os.Stdout.WriteString(runFinishes(atoi(a[1])))
+			return
+		}
 		if len(a) != 3 || a[2] == "-" {
 			os.Stdout.WriteString("BAD-CASE")
 			return
